@@ -11,7 +11,7 @@ git -C /repo worktree add -q --detach "$wt" HEAD || { echo "REJECTED worktree"; 
 cleanup() { git -C /repo worktree remove --force "$wt" 2>/dev/null; rm -rf "$wt"; }
 trap cleanup EXIT
 cd "$wt"
-place=$(python3 -c "import json;print(json.load(open('$d/meta.json'))['demo_place'])")
+place=$(python3 -c "import json;print(json.load(open('$d/meta.json'))['demo_place'].split()[0])")
 cmd=$(python3 -c "import json;print(json.load(open('$d/meta.json'))['demo_cmd'])")
 demo=$(ls "$d"/demo*_test.go 2>/dev/null | head -1)
 [ -z "$demo" ] && { echo "REJECTED no demo test"; exit 1; }
